@@ -41,7 +41,7 @@ def run_one(args):
     c, scratch = args
     try:
         s = c['stream']
-        if s == 'm': return M.run_value(c['v'], scratch, c.get('where', 'root'))
+        if s == 'm': return M.run_value(c['v'], scratch, c.get('where', 'root'), c.get('alias', False))
         if s == 'a': return A.run_scenario(c, scratch)
         if s == 'p': return P.run_case(c, scratch)
         if s == 'l': return L.run_case(c, scratch)
